@@ -13,28 +13,36 @@ import vlib
 
 PROPERTY = "C15"
 LEVEL = "proof"
-LEVEL_TEXT = ("Lean 4 theorems about the per-target decision model in both modes: from equal caches the hit/execute decision, the "
-              "verdict and the key do not depend on the mode (per-step lemma), every command that starts in minimal mode finds the "
-              "declared outputs of its direct dependencies materialised with the values their output hashes encode "
-              "(deps_present_at_exec, no load faults), and what a minimal build materialises equals the stored values. The lock-step "
-              "statement over whole histories is stated in full and proved without load faults as same_verdict_and_execs_partial. "
+LEVEL_TEXT = ("Lean 4 theorems about the decision model in both modes: from equal caches the hit/execute decision, the verdict and the key "
+              "do not depend on the mode (per-step lemmas); a lock-step simulation `Rel` between the run in mode all and the run in mode "
+              "minimal (Lemmas/BuildMinimal.lean) gives deps_present_at_exec_holds — when a command starts in minimal mode, "
+              "LoadDependencyOutputs has succeeded with the fuel the build provides, re-run nothing, and every declared output of every "
+              "direct dependency is materialised with, path by path, the value mode all has in its workspace (deps_current_at_exec: the "
+              "value its output hash encodes) — and same_verdict_and_execs_holds — for every well-formed history of edits, taints and "
+              "builds with any flags, run in lock step in both modes over separate caches, every build has the same verdict, the same "
+              "per-target verdicts, the same executed commands in the same order and leaves the same cache. "
               "Tied by lock-step history correspondence against the real CLI in both modes.")
-LEVEL_NOTE = ("Partial: the lock-step statement over whole histories is a definition, not a theorem. Cache faults: lost blobs are generated "
-              "(family lostblob: 3-level chains, blob of the middle target lost in both universes, workspace copy removed; mode all "
-              "re-executes an irretrievable target when it reaches it, minimal only when an executing direct dependant needs it - the "
-              "oracle compares modulo that); a read fault on a stored target result while dependencies are loaded is injected in-process "
-              "(overlay test with a failing backend). The handlers' local-digest short cut (restore from a matching workspace file "
-              "without the blob) is not modelled.")
+LEVEL_NOTE = ("The lock-step theorem excludes histories with lost blobs (dropBlob steps; CasOK — every blob a stored result names is in the "
+              "CAS — is required at the start and preserved by every other step): with a lost blob mode all re-executes an irretrievable "
+              "target when it reaches it, minimal only when an executing direct dependant needs it; these histories are generated (family "
+              "lostblob) and compared by the oracle modulo that. Hypotheses of the theorems: injective key (Good P), the repairs "
+              "minValidate / rerunOnce / loadFault in the modelled code, well-formed builds (WF, dependency lists = direct dependencies "
+              "without duplicates, declared outputs disjoint from inputs and check files over the whole history). A read fault on a stored "
+              "target result while dependencies are loaded is injected in-process (overlay test with a failing backend). The handlers' "
+              "local-digest short cut (restore from a matching workspace file without the blob) is not modelled.")
 TECHNIQUE = "Lean 4 proof over an executable model + lock-step history correspondence (all vs minimal) with the real CLI"
 OBLIGATIONS = [
     "Grog.C15.same_decision_step",
     "Grog.C15.same_status_step",
     "Grog.C15.materialised_equal",
+    "Grog.C15.deps_present_at_exec_holds",
+    "Grog.C15.deps_current_at_exec",
+    "Grog.C15.same_verdict_and_execs_holds",
     "Grog.C15.nocache_rerun_witness",
     "Grog.C15.load_fault_witness",
 ]
 ASSUMPTIONS = [
-    "no cache-backend faults during dependency loading (partial claim)",
+    "lock-step theorem: histories without lost blobs (no dropBlob step; CasOK at the start), well-formed builds (BuildOK)",
     "cache key injective (C09), restore exact (C06), atomic per-target steps",
 ]
 
